@@ -1,6 +1,6 @@
 (* the property-level statements of layer L2 and their proofs from the layer's theorems (the Props*.v files only [exact] these) *)
 From stdpp Require Import list numbers option.
-From L2 Require Import Model Base Own Jobs Shape DwInv Pool OpShape Fut Sig Task TaskInv Wake WakeInv Term Complete Susp Zero ZeroInv ZeroTerm Facts Waiter WaiterTerm YDefs YInv YThm YThm1 YTerm.
+From L2 Require Import Model Base Own Jobs Shape DwInv Pool OpShape Fut Sig Task TaskInv Wake WakeInv Term Complete Susp Zero ZeroInv ZeroTerm Facts Waiter WaiterTerm YDefs YInv YThm YThm1 YTerm YTerm0.
 
 (* ---------- C01 ---------- *)
 Definition C01_full : Prop :=
@@ -360,3 +360,28 @@ Definition C08_5_releases_the_queue : Prop :=
   (forall o f r, GYnew o f r ∈ s.(log) -> GStart o ∈ s.(log) /\ GFinish o ∈ s.(log) /\ (GUFinish o ∈ s.(log) \/ GYdrop o ∈ s.(log))).
 Lemma C08_5_main : C08_5_releases_the_queue.
 Proof. intros T HA scripts npool nev tr s. apply (futsync_releases_queue T HA). Qed.
+(* (5) for ANY number of pool threads, ZERO included, and any callers: with only the external events fired, a terminal state has
+   every actor done, or parked awaiting a SchedulerFuture (C04_sync_returns_full's case), or owning a SyncFuture whose slot job has
+   not sent queue_ready yet (the queue never got to it); nobody is left inside sync, and no SyncFuture owner sleeps once its slot has
+   begun *)
+Definition C08_5_terminal_any_pool : Prop :=
+  forall (T : ftables), all_cond T -> claim_cond T ->
+  forall scripts npool nev tr s, ywf nev scripts -> run T (init scripts npool nev) tr = Some s -> terminal T s ->
+  (forall e, e < nev -> (getev s e).(fired) = true) ->
+  forall c st, stacks s !! c = Some st ->
+  st = [FTop []] \/ st = [FPIdle] \/ (exists f rest, st = FPark f :: rest) \/
+  (exists y b u rest, st = FY YPpark y (YQueue b) u :: rest /\ (getev s y.(y_r)).(fired) = false).
+Lemma C08_5_terminal_any_pool_main : C08_5_terminal_any_pool.
+Proof. intros T HA HC scripts npool nev tr s. apply (futsync_terminal_any_pool T HA HC). Qed.
+(* a caller that never AWAITS a future to completion - future_sync polled n times and dropped, desync, sync, SchedulerFuture::sync,
+   poll-and-drop, detach, fire - finishes its script with any pool size (zero included), whatever the other callers do; only the
+   external events are assumed fired ([noawait]: see C04_noawait_caller_finishes, which needs every cell fired) *)
+Definition C08_5_dropping_caller_finishes : Prop :=
+  forall (T : ftables), all_cond T -> claim_cond T ->
+  forall scripts npool nev tr s c sc, ywf nev scripts -> scripts !! c = Some sc -> noawait sc ->
+  run T (init scripts npool nev) tr = Some s -> terminal T s -> (forall e, e < nev -> (getev s e).(fired) = true) ->
+  stacks s !! c = Some [FTop []].
+Lemma C08_5_dropping_caller_finishes_main : C08_5_dropping_caller_finishes.
+Proof.
+  intros T HA HC scripts npool nev tr s c sc Hwf Hsc Hn. apply (dropping_caller_finishes T HA HC scripts npool nev tr s c sc Hwf Hsc). by apply noawait_b.
+Qed.
